@@ -25,7 +25,9 @@ STRINGS = ["", "a", "hello world", 'say "hi"', "line1\nline2", "tab\there", "caf
            "ends with backslash\\", '\\"', "prov:looks-like-a-name", " leading and trailing "]
 LANGS = ["en", "fr", "en-GB"]
 FOREIGN_TYPES = [("ex", "http://a/", "mytype"), ("xsd", XSD.uri, "decimal"), ("xsd", XSD.uri, "gYear"),
-                 ("xsd", XSD.uri, "short"), ("foo", "http://other/", "T")]
+                 ("xsd", XSD.uri, "short"), ("foo", "http://other/", "T"),
+                 # one spelling, another URI: what 'ex:mytype' / 'foo:T' means depends on who declares the prefix
+                 ("ex", "http://example.org/", "mytype"), ("ex", "http://other/", "mytype"), ("foo", "http://foo.org/ns#", "T")]
 
 
 class Gen:
